@@ -119,6 +119,19 @@ Theorem C14_parity_preserving_resize_keeps_coordinates :
       @pixel_centre_code ROps r0 r1 g i j = @pixel_centre_code ROps H W g y x.
 Proof. exact @parity_preserving_resize_keeps_coordinates. Qed.
 
+(* in particular PSF padding (odd kernel): pixel (i, j) moves to (i + (k0-1)/2, j + (k1-1)/2) and keeps everything *)
+Theorem C14_psf_padding_keeps_coordinates :
+  forall (A : Type) (zero : A) (arr : arr2d A) H W k0 k1 mask_pad_value (g : @geom ROps),
+  rectb H W (fst arr) = true -> rectb H W (snd arr) = true -> 0 < H ->
+  Z.odd k0 = true -> Z.odd k1 = true -> 1 <= k0 -> 1 <= k1 ->
+  exists out, padded_before_convolution_from zero arr (k0, k1) mask_pad_value = Ok out /\
+    forall i j, 0 <= i < H -> 0 <= j < W ->
+      let i' := i + (k0 - 1) / 2 in let j' := j + (k1 - 1) / 2 in
+      zget2 true (snd out) i' j' = zget2 true (snd arr) i j /\
+      zget2 zero (fst out) i' j' = zget2 zero (fst (normal_arr zero arr)) i j /\
+      @pixel_centre_code ROps (H + (k0 - 1)) (W + (k1 - 1)) g i' j' = @pixel_centre_code ROps H W g i j.
+Proof. exact @psf_padding_keeps_coordinates. Qed.
+
 (* the same through Mask2D.resized_from(pad_value=1) + Grid2D.from_mask: the grid of the resized mask lists the
    original coordinates of the surviving unmasked pixels *)
 Theorem C14_parity_preserving_mask_resize_keeps_grid : forall (m : list (list bool)) H W r0 r1 (g : @geom ROps),
@@ -152,6 +165,16 @@ Theorem C14_apply_mask_footprint_inside :
   rectb H W data = true -> rectb H W noise = true -> rectb H W m = true -> 0 < H -> odd_kernel k = true ->
   exists d' n', imaging_apply_mask zero data noise m (Some k) = Ok (d', n') /\ footprint_inside (snd d') k = true.
 Proof. exact @apply_mask_footprint_inside. Qed.
+
+(* when apply_mask padded, AbstractDataset.trimmed_after_convolution_from for the same kernel gives back the masked data
+   and noise map on the original mask *)
+Theorem C14_apply_mask_then_trim_id :
+  forall (A : Type) (zero : A) (data noise : list (list A)) (m : list (list bool)) H W k,
+  rectb H W data = true -> rectb H W noise = true -> rectb H W m = true -> 0 < H -> odd_kernel k = true ->
+  blurring_raises m k = true ->
+  bind (imaging_apply_mask zero data noise m (Some k)) (fun dn => dataset_trimmed zero dn k)
+  = Ok ((zip_mask zero data m, m), (zip_mask zero noise m, m)).
+Proof. exact @apply_mask_then_trim_id. Qed.
 
 (* ---------------------------------------------------------------- 4. zoom *)
 Theorem C14_extract_is_window : forall (A : Type) (zero : A) (a : list (list A)) H W y0 y1 x0 x1,
@@ -256,6 +279,8 @@ Print Assumptions C14_parity_preserving_mask_resize_keeps_grid.
 Print Assumptions C14_parity_hypothesis_needed.
 Print Assumptions C14_auto_padding_keeps_triples.
 Print Assumptions C14_apply_mask_footprint_inside.
+Print Assumptions C14_psf_padding_keeps_coordinates.
+Print Assumptions C14_apply_mask_then_trim_id.
 Print Assumptions C14_extract_is_window.
 Print Assumptions C14_zoom_region_contains_unmasked.
 Print Assumptions C14_zoom_contains_unmasked.
